@@ -101,6 +101,17 @@ def run_harness(c, binary, seed, ncases, nops, extra=(), batch=5, workers=6, bas
     return cases, stats, crashes
 
 
+def redos_of(case):
+    """Gallina list of the kernel-step indices of crashed operations that are immediately offered again."""
+    ks = [op for op, _, _ in case["steps"] if not op.startswith(("(MEnter", "MSMRead", "MGRead"))]
+    idx = []
+    for i in range(len(ks) - 1):
+        m = re.match(r"\(XCrash \d+ (.*)\)$", ks[i], flags=re.S)
+        if m and m.group(1) == ks[i + 1]:
+            idx.append(i)
+    return "[" + "; ".join("%d%%nat" % i for i in idx) + "]"
+
+
 def eval_cases(c, name, cases, extra_import="", extra_defs="", per_case_exprs=None, shard=6, workers=6):
     """Evaluate run_case (correspondence) and optional per-case monitor expressions (over the
     OBSERVED data) inside coqc.  Returns (dict idx -> {"corr": None|str, "mon": {name: str}}, errlog)."""
@@ -117,7 +128,7 @@ def eval_cases(c, name, cases, extra_import="", extra_defs="", per_case_exprs=No
             body += "Print corr_%d.\n" % c_["idx"]
             for mname, expr in per_case_exprs.items():
                 body += "Definition mon_%s_%d := Eval vm_compute in (%s).\nPrint mon_%s_%d.\n" % (
-                    mname, c_["idx"], expr.replace("@CASE@", "case_%d" % c_["idx"]), mname, c_["idx"])
+                    mname, c_["idx"], expr.replace("@CASE@", "case_%d" % c_["idx"]).replace("@REDOS@", redos_of(c_)), mname, c_["idx"])
         return sh, c.coq_eval("%s_%d" % (name, si), body, timeout=1200)
 
     results = {}
@@ -223,11 +234,11 @@ MON_EXPRS = {
     "c05": "first_bad c05_obs_ok 0 (obs_of (snd @CASE@))",
     "noop": "noop_trace_bad 0 (ms_k (fst @CASE@)) (observe_m (fst @CASE@) IONone) (ksteps (snd @CASE@))",
     "c04": "c04_trace_ok (k_init_h (ms_k (fst @CASE@))) None (obs_of (snd @CASE@))",
-    "c07": "first_bad (c07_obs_ok (let v := k_init_vs (ms_k (fst @CASE@)) in TL [TB (vs_pkh v); TB (vs_vph v); TL (map TN (vs_keys v)); TL (map TN (vs_pows v))])) 0 (obs_of (snd @CASE@))",
+    "c07": "first_bad (c07_obs_ok (k_init_h (ms_k (fst @CASE@))) (let v := k_init_vs (ms_k (fst @CASE@)) in TL [TB (vs_pkh v); TB (vs_vph v); TL (map TN (vs_keys v)); TL (map TN (vs_pows v))])) 0 (obs_of (snd @CASE@))",
     "c10obs": "restart_obs_bad c10_restart_obs_ok 2 0 (ms_k (fst @CASE@)) (ksteps (snd @CASE@))",
     "c10obs_shifted": "restart_obs_bad c10_restart_obs_ok 1 0 (ms_k (fst @CASE@)) (ksteps (snd @CASE@))",
-    "c10conv": "conv_trace_bad 2 0 (ms_k (fst @CASE@)) (ksteps (snd @CASE@))",
-    "c10ahead": "conv_trace_bad 1 0 (ms_k (fst @CASE@)) (ksteps (snd @CASE@))",
+    "c10conv": "conv_trace_bad @REDOS@ 2 0 (ms_k (fst @CASE@)) (ksteps (snd @CASE@))",
+    "c10ahead": "conv_trace_bad @REDOS@ 1 0 (ms_k (fst @CASE@)) (ksteps (snd @CASE@))",
     "c06": "first_bad c06_obs_ok 0 (obs_of (snd @CASE@))",
     "c11sm": "c11_sm_bad 0 None (obs_of (snd @CASE@))",
     "c11g": "c11_g_bad 0 [] (obs_of (snd @CASE@))",
@@ -274,6 +285,13 @@ def mirror_check(c, prop_file, monitors, what, quick=(40, 30), thorough=(600, 40
         rp = json.load(open(c.replay))
         seeds = [(rp.get("batch_seed"), rp.get("batch_cases", 5), rp.get("ops", nops))]
     cases, stats, crashes = run_harness(c, binary, c.seed, ncases, nops, extra=["-replay"] + list(extra))
+    for cr in crashes[:2]:
+        # the real mirror died (kernel panic) or the harness gave up: that batch's histories are incomplete, so the
+        # correspondence is not established for them; C09's kernel part reports the panic itself with its history
+        m = re.search(r"panic: (.*)", cr["stderr"])
+        c.fail_obligation("harness-run: the real mirror died during a generated history",
+                          (m.group(1) if m else "exit %s" % cr["rc"])[:300] + "\n" + cr["stderr"][-1200:],
+                          {"batch_seed": cr["batch_seed"], "how": "bin/h_mirror -seed %d -cases 5 -ops %d %s" % (cr["batch_seed"], nops, " ".join(["-replay"] + list(extra)))})
     model_ok = tok
     if tok:
         okm, mlog = c.coq_make(["Model/MirrorObs.vo", "Monitors/MirrorM.vo"])
